@@ -34,7 +34,7 @@ def _norm(e) -> str:
 
 def run(chk, repo: Repo):
     chk.rule("C08-R1", "leapfrog r1 = r + eps/2 g; x1 = x + eps r1; (logd1, g1) = target(x1); r2 = r1 + eps/2 g1; returns (x1, r2, logd1, g1)", floor=2)
-    chk.rule("C08-R2", "tree leaf: Hamiltonian, slice indicator (<=), divergence indicator (<, Delta_max), alpha' = min(1, exp(H'-H))", floor=2)
+    chk.rule("C08-R2", "tree leaf: exactly one leapfrog step, Hamiltonian, slice indicator (<=), divergence indicator (<, Delta_max), alpha' = min(1, exp(H'-H))", floor=2)
     chk.rule("C08-R3", "tree recursion: guard s'==1, outermost state by direction, selection ratio and update order, paired copy, U-turn with both momenta", floor=2)
     chk.rule("C08-R4", "transition: log-domain slice, one fresh direction per doubling, accept guard, paired cache update, count update after the test, loop condition, tuning statistic", floor=2)
     chk.rule("C08-R5", "dual averaging: H_bar, epsilon, epsilon_bar updates with the documented dependence and signs", floor=2)
